@@ -17,3 +17,17 @@ pub mod real {
 pub mod venv;
 
 pub use venv::{mmap, mprotect, munmap, sysconf};
+
+/// The cache-flush primitive as a *symbol*: wherever the crate under test declares
+/// `extern "C" { fn __clear_cache(..) }` (today in linuxapi.rs, which the mount step replaces by a
+/// re-export of [`venv::__clear_cache`]), the declaration resolves to this logging implementation
+/// rather than to the compiler runtime's, so the flush log does not depend on that file's name.
+///
+/// # Safety
+/// as for the C function: `[start, end)` is an address range.
+mod clear_cache_symbol {
+#[no_mangle]
+    pub unsafe extern "C" fn __clear_cache(start: *mut std::ffi::c_char, end: *mut std::ffi::c_char) {
+        crate::venv::__clear_cache(start as *mut u8, end as *mut u8)
+    }
+}
